@@ -47,7 +47,9 @@ Inductive mode :=
 
 Record lst := mkL { l_mode : mode; l_line : N; l_cr : bool }.
 
-Inductive sres := SOk (st : lst) (out : list tok) | SErr (e : lexerr).
+(** [SErr out e]: the tokens [out] are still delivered (a bare string / directive ended by the offending
+    character), then the tokenizer raises [e]. *)
+Inductive sres := SOk (st : lst) (out : list tok) | SErr (out : list tok) (e : lexerr).
 
 (** BARE_DISALLOWED: double quote, quote, braces, semicolon, comma, equals, brackets, parentheses, CR, LF, TAB, space *)
 Definition bare_disallowed (c : char) : bool :=
@@ -66,14 +68,14 @@ Definition norm_step (line : N) (cr : bool) (c : char) : sres :=
   else if c =? 91 then SOk (mkL (MFlag []) line false) []
   else if c =? 40 then SOk (mkL (MParen []) line false) []
   else if (c =? 65279) && (line =? 1) then SOk (mkL MNorm line false) []
-  else if c =? 93 then SErr LCloseBracket
-  else if c =? 41 then SErr LCloseParen
+  else if c =? 93 then SErr [] LCloseBracket
+  else if c =? 41 then SErr [] LCloseParen
   else if c =? 35 then SOk (mkL MDirective line false) []
   else if negb (bare_disallowed c) then SOk (mkL (MBare [c]) line false) []
-  else SErr LUnexpectedChar.
+  else SErr [] LUnexpectedChar.
 
 Definition prepend (t : tok) (r : sres) : sres :=
-  match r with SOk st out => SOk st (t :: out) | SErr e => SErr e end.
+  match r with SOk st out => SOk st (t :: out) | SErr out e => SErr (t :: out) e end.
 
 Definition lstep (E : escfg) (st : lst) (c : char) : sres :=
   let line := l_line st in
@@ -96,18 +98,18 @@ Definition lstep (E : escfg) (st : lst) (c : char) : sres :=
            end
   | MFlag acc =>
       if c =? 93 then SOk (mkL MNorm line cr) [TFlag (rev acc)]
-      else if c =? LF then SErr LFlagNewline
-      else if c =? 91 then SErr LFlagNest
+      else if c =? LF then SErr [] LFlagNewline
+      else if c =? 91 then SErr [] LFlagNest
       else SOk (mkL (MFlag (c :: acc)) line cr) []
   | MParen acc =>
       if c =? 41 then SOk (mkL MNorm line cr) [TOther]
       else if c =? LF then SOk (mkL (MParen (c :: acc)) (line + 1) cr) []
-      else if c =? 40 then SErr LParenNest
+      else if c =? 40 then SErr [] LParenNest
       else SOk (mkL (MParen (c :: acc)) line cr) []
   | MSlash =>
-      if c =? 42 then SErr LStarComment
+      if c =? 42 then SErr [] LStarComment
       else if c =? 47 then SOk (mkL MComment line cr) []
-      else SErr LSingleSlash
+      else SErr [] LSingleSlash
   | MComment =>
       if c =? LF then norm_step line cr c else SOk st []
   | MDirective =>
@@ -123,7 +125,7 @@ Fixpoint lex_run (E : escfg) (st : lst) (inp : str) : list tok * (lexerr + lst) 
   | [] => ([], inr st)
   | c :: r =>
       match lstep E st c with
-      | SErr e => ([], inl e)
+      | SErr out e => (out, inl e)
       | SOk st' out => let '(ts, fin) := lex_run E st' r in (out ++ ts, fin)
       end
   end.
